@@ -669,7 +669,8 @@ impl<'a> UserModel<'a> {
         if let Ok(worksheet) = self.model.workbook.worksheet_mut(sheet) {
             if let Some(view) = worksheet.views.get_mut(&self.model.view_id) {
                 view.top_row = last_row;
-                view.row = view.top_row + row_delta;
+                // the selected cell stays on the grid
+                view.row = (view.top_row + row_delta).clamp(1, LAST_ROW);
                 view.range = [view.row, view.column, view.row, view.column];
             }
         }
@@ -704,7 +705,8 @@ impl<'a> UserModel<'a> {
         if let Ok(worksheet) = self.model.workbook.worksheet_mut(sheet) {
             if let Some(view) = worksheet.views.get_mut(&self.model.view_id) {
                 view.top_row = first_row;
-                view.row = view.top_row + row_delta;
+                // the selected cell stays on the grid
+                view.row = (view.top_row + row_delta).clamp(1, LAST_ROW);
                 view.range = [view.row, view.column, view.row, view.column];
             }
         }
@@ -723,23 +725,22 @@ impl<'a> UserModel<'a> {
             } else {
                 return Ok(());
             };
-        let (selected_row, selected_column, range, top_row, left_column) =
+        let (selected_row, selected_column, top_row, left_column) =
             if let Ok(worksheet) = self.model.workbook.worksheet(sheet) {
                 if let Some(view) = worksheet.views.get(&self.model.view_id) {
-                    (
-                        view.row,
-                        view.column,
-                        view.range,
-                        view.top_row,
-                        view.left_column,
-                    )
+                    (view.row, view.column, view.top_row, view.left_column)
                 } else {
                     return Ok(());
                 }
             } else {
                 return Ok(());
             };
-        let [row_start, column_start, _row_end, _column_end] = range;
+        if !is_valid_row(target_row) {
+            return Err(format!("Invalid row: '{target_row}'"));
+        }
+        if !is_valid_column_number(target_column) {
+            return Err(format!("Invalid column: '{target_column}'"));
+        }
 
         let mut new_left_column = left_column;
         if target_column >= selected_column {
@@ -775,7 +776,8 @@ impl<'a> UserModel<'a> {
 
         if let Ok(worksheet) = self.model.workbook.worksheet_mut(sheet) {
             if let Some(view) = worksheet.views.get_mut(&self.model.view_id) {
-                view.range = [row_start, column_start, target_row, target_column];
+                // the area is anchored at the selected cell, so the cell stays inside it
+                view.range = [selected_row, selected_column, target_row, target_column];
                 if new_top_row != top_row {
                     view.top_row = new_top_row;
                 }
